@@ -27,6 +27,14 @@ def streams(ctx):
         ops.append("ident_dr %s %d %d %d %d" % (w, x, yd, gen.get_c(yd), rng.choice((1, 4))))
     reg = c08_regimes.streams(ctx)[0].ops
     ops += [o for o in reg if o.startswith("ident_")]
+    if not ctx.quick:
+        # D's leaf loops only reach primes >= 2^16 when z >= 2^32, i.e. x >= 65537^4 ~ 1.8447e19 (positions p^2 <= z): the one place
+        # where `prime * prime` no longer fits 32 bits in D (seeded change C15-b, default copy of D only). ~30 s per run.
+        import os
+        from .. import core
+        exe = os.path.join(core.ensure_build("rel"), "primecount")
+        for x in (65537 ** 4 + 613539839, 18447870000000000000):
+            ops.append("clit 900 %s %d -D --threads=16" % (exe, x))
     shared = {}
     sts = []
     order = ("A", "P", "B")
@@ -42,7 +50,7 @@ def streams(ctx):
                             dis.append(dict(index=j, op="%s   [%s]" % (ops_[j], " ".join("%s=%s" % kv for kv in sorted(c17sieve.ENVS[c].items())) or "no override"),
                                             impl=b[:400], model="%s (same op with CPU dispatch %s)" % (a[:400], order[0])))
             return dis
-        sts.append(Stream("formulas-dispatch-" + cfg, ops, oracle=True, env=dict(c17sieve.ENVS[cfg], PCV_OP_TIMEOUT="200"),
+        sts.append(Stream("formulas-dispatch-" + cfg, ops, oracle=True, env=dict(c17sieve.ENVS[cfg], PCV_OP_TIMEOUT="1000"),
                           model_ops=lambda o, impl: ["# " + s for s in o], judge=judge, timeout=3000,
-                          classify=lambda op, r: op.split()[0] + ("/regime" if int(op.split()[2]) > 10 ** 14 else "")))
+                          classify=lambda op, r: op.split()[0] + ("/regime" if op.split()[0] != "clit" and int(op.split()[2]) > 10 ** 14 else "")))
     return sts
